@@ -68,11 +68,39 @@ class Check:
         now = time.time(); self.phases[name] = round(self.phases.get(name, 0) + now - self._pt, 1); self._pt = now
 
     # ---------- 1. translator ----------
+    def gen_deps(self):
+        """generated files (Gen/X.v) the property's Coq targets import, transitively"""
+        seen, todo, gens = set(), [t[:-1] if t.endswith(".vo") else t for t in self.s["coq_targets"]], set()
+        while todo:
+            f = todo.pop()
+            if f in seen: continue
+            seen.add(f)
+            path = os.path.join(COQ, f)
+            if not os.path.exists(path): continue
+            text = strip_comments(open(path).read())
+            for m in re.finditer(r"(?:From\s+Sci\s+)?Require\s+(?:Import\s+|Export\s+)?(.*?)\.(?=\s)", text, re.S):
+                for name in m.group(1).split():
+                    parts = [x for x in name.split(".") if x != "Sci"]
+                    if len(parts) < 2: continue
+                    if parts[0] == "Gen": gens.add(parts[1] + ".v")
+                    else: todo.append("theories/" + "/".join(parts) + ".v")
+        self._closure = sorted(seen)
+        return gens
+
     def gen(self):
         rc, out = sh([sys.executable, os.path.join(ROOT, "tools", "gen.py")])
-        if rc != 0:
-            self.proof_break("translator", "tools/gen.py: " + out.strip().replace("\n", "; "))
-            return False
+        try:
+            status = json.load(open(os.path.join(CACHE, "gen_status.json")))
+        except Exception:
+            self.proof_break("translator", "tools/gen.py: " + out.strip().replace("\n", "; ")); return False
+        need = self.gen_deps()
+        bad = []
+        for mod, st in status.items():
+            if st["missing"] and (set(st["files"]) & need or not st["files"] and self.s.get("gen_all")):
+                bad += [f"{mod}: {m}" for m in st["missing"]]
+        self.cov["generated_files_used"] = sorted(need)
+        if bad:
+            self.proof_break("translator", "tools/gen.py: " + "; ".join(bad)); return False
         return True
 
     # ---------- 2./3. theorems ----------
@@ -108,8 +136,13 @@ class Check:
             self.proof_break("assumptions", "Print Assumptions reports axioms outside the allow-list: " + ", ".join(bad))
         if n_print < len(thms):
             self.proof_break("assumptions", f"{props}: {len(thms)} theorems but only {n_print} Print Assumptions")
-        # forbidden tokens anywhere in the development
-        for f in glob.glob(os.path.join(COQ, "theories", "**", "*.v"), recursive=True):
+        # forbidden tokens anywhere in the files the property's theorems depend on
+        # (transitive Require closure of the targets; Gen files included)
+        self.gen_deps()
+        closure = [os.path.join(COQ, f) for f in self._closure if os.path.exists(os.path.join(COQ, f))]
+        closure += [os.path.join(COQ, "theories", "Gen", g) for g in self.cov.get("generated_files_used", [])]
+        self.cov["audited_files"] = len(closure)
+        for f in closure:
             m = FORBIDDEN.search(strip_comments(open(f).read()))
             if m:
                 self.proof_break("audit", f"forbidden token '{m.group(0)}' in {os.path.relpath(f, ROOT)}")
